@@ -752,10 +752,15 @@ impl<T: GseDecapMemory, C: CrcCalculator, MHEM: MandatoryHeaderExtensionManager>
         if pdu_buffer_len < calculed_pdu_len {
             return Err((self.give_back(pdu, DecapError::ErrorSizePduBuffer), pkt_len));
         }
+        // the reassembled length is a 16 bit counter: a pdu that outgrows it can never match its total length
+        let new_pdu_len = match u16::try_from(decap_context.pdu_len as usize + calculed_pdu_len) {
+            Ok(new_pdu_len) => new_pdu_len,
+            Err(_) => return Err((self.give_back(pdu, DecapError::ErrorTotalLength), pkt_len)),
+        };
         pdu_buffer[..calculed_pdu_len].copy_from_slice(&buffer[offset..offset + calculed_pdu_len]);
 
         // save state
-        decap_context.pdu_len += calculed_pdu_len as u16;
+        decap_context.pdu_len = new_pdu_len;
 
         let metadata = DecapMetadata {
             pdu_len: 0,
@@ -826,8 +831,8 @@ impl<T: GseDecapMemory, C: CrcCalculator, MHEM: MandatoryHeaderExtensionManager>
             )
         };
 
-        let total_len_received = (pdu_len + PROTOCOL_LEN + first_label_len) as u16;
-        if decap_context.total_len != total_len_received {
+        let total_len_received = pdu_len + PROTOCOL_LEN + first_label_len;
+        if decap_context.total_len as usize != total_len_received {
             return Err((self.give_back(pdu, DecapError::ErrorTotalLength), pkt_len));
         }
 
